@@ -14,34 +14,85 @@ let rec seqi a n = if n <= 0 then [] else a :: seqi (a + 1) (n - 1)
 
 let ids_string (l : int list) = if l = [] then "-" else String.concat "," (List.map string_of_int l)
 
-(* configured profile spec -> parts of the Coq model *)
-let parts_of_spec (spec : string) : part list =
+(* a rate written as a decimal -> (num, den) *)
+let dec_ops (x : string) : int * int =
+  match String.index_opt x '.' with
+  | None -> (int_of_string x, 1)
+  | Some i ->
+      let fr = String.sub x (i + 1) (String.length x - i - 1) in
+      let den = int_of_float (10. ** float_of_int (String.length fr)) in
+      (int_of_string (String.sub x 0 i ^ fr), den)
+
+(* rep:K:p1,p2,... = K repetitions of the comma separated parts *)
+let expand_spec (spec : string) : string list =
+  List.concat (List.map (fun p ->
+    if String.length p > 4 && String.sub p 0 4 = "rep:" then
+      (match String.split_on_char ':' p with
+       | _ :: k :: rest ->
+           let body = String.split_on_char ',' (String.concat ":" rest) in
+           List.concat (List.init (int_of_string k) (fun _ -> body))
+       | _ -> failwith ("bad spec " ^ p))
+    else [p]) (String.split_on_char '+' spec))
+
+(* configured profile spec -> parts of the Coq model; a const part is given by its RATE: how many tokens it
+   releases is the model's business (Model/StartProfile.v const_count) *)
+let parts_of_spec (spec : string) : ppart list =
   List.concat (List.map (fun p ->
     match String.split_on_char ':' p with
-    | ["once"; n] -> [POnce (z_of_int (int_of_string n))]
+    | ["once"; n] -> [PP (POnce (z_of_int (int_of_string n)))]
     | ["const"; ops; ms] ->
-        let ops = int_of_string ops and ms = int_of_string ms in
-        if ops = 0 then [PPause (z_of_int (ms * 1000000))]
-        else [PConst (z_of_int (ops * ms / 1000), z_of_int (1000000000 / ops), z_of_int (ms * 1000000))]
+        let (num, den) = dec_ops ops in
+        [PRate (z_of_int num, z_of_int den, z_of_int (int_of_string ms * 1000000))]
     | ["istep"; f; t; st; ms] ->
         let t_ = int_of_string t in
         (match new_instance_step (nat_of_int (t_ + 1)) (z_of_int (int_of_string f)) (z_of_int t_)
                  (z_of_int (int_of_string st)) (z_of_int (int_of_string ms * 1000000)) with
-         | Some ps -> ps
+         | Some ps -> List.map (fun q -> PP q) ps
          | None -> failwith "model-out-of-fuel")
-    | _ -> failwith ("bad spec " ^ p)) (String.split_on_char '+' spec))
+    | _ -> failwith ("bad spec " ^ p)) (expand_spec spec))
+
+let flat_spec (spec : string) : z list = pflatten Z0 (parts_of_spec spec)
+let count_spec (spec : string) : int = int_of_z (profile_count (parts_of_spec spec))
 
 let predict (c : string) (obs : string) : string * string * bool =
   match split_blank c with
   | ["drain"; spec] ->
-      let m = flatten Z0 (parts_of_spec spec) in
+      let m = flat_spec spec in
       let mi = List.map int_of_z m in
       let rel = (match mi with [] -> [] | x :: _ -> List.map (fun y -> z_of_int (y - x)) mi) in
       let want = Printf.sprintf "%d %s 1 %s" (List.length m) (rle rel) (rle m) in
       (want, verdict (obs = want) ("self-started profile must release its tokens at the configured offsets, expected " ^ want),
        List.length m >= 2)
+  | ["count"; spec] ->
+      let m = flat_spec spec in
+      let want = Printf.sprintf "%d 1 1" (List.length m) in
+      let pred = Printf.sprintf "%d 1 1" (count_spec spec) in
+      (pred, verdict (obs = want) ("a const part releases one token per WHOLE period that fits into its duration; expected " ^ want),
+       List.length m >= 1)
+  | ["cfg"; per; _rform; rps; _sform; st; _shoot] ->
+      let k = List.length (flat_spec st) and t = List.length (flat_spec rps) in
+      (* per instance profiles: every factory call builds new schedule objects (Model/StartPerInst.v Fresh) *)
+      let shots =
+        if per = "1" then
+          (let fin = pidrive Fresh (nat_of_int t) (nat_of_int k) in
+           if k = 0 then "-" else String.concat "," (List.map (fun i -> string_of_int (int_of_nat (shots_of (nat_of_int i) fin))) (seqi 0 k)))
+        else string_of_int (if k = 0 then 0 else t) in
+      let want = Printf.sprintf "ok %d %d %s 1 1 1 exhausted %s" k k (ids_string (seqi 0 k)) shots in
+      let why =
+        (match split_blank obs with
+         | [outcome; started; _fin; ids; _d; notahead; onprofile; _e; oshots] ->
+             let started = int_of_string started in
+             if outcome <> "ok" then "pool-built-from-config:run-" ^ outcome
+             else if started > k then "more-instances-than-the-configured-profile-releases"
+             else if started < k then "tokens-without-instances-and-no-listed-cause"
+             else if ids <> ids_string (seqi 0 k) then "ids-not-consecutive-from-0"
+             else if notahead <> "1" || onprofile <> "1" then "instance-created-before-its-startup-token"
+             else if oshots <> shots then "instance-did-not-fire-its-own-rps-profile"
+             else "observation-differs"
+         | _ -> "run-outcome-" ^ obs) in
+      (want, verdict (obs = want) (why ^ "; expected " ^ want), k >= 2)
   | ["wait"; spec; works] ->
-      let toks = flatten Z0 (parts_of_spec spec) in
+      let toks = flat_spec spec in
       let ws = if works = "-" then [] else List.map (fun x -> z_of_int (int_of_string x * 1000000)) (String.split_on_char ',' works) in
       let k = List.length toks in
       (* the code's Waiter (release rule waitFor <= 0) with its overdue bookkeeping, canonical run *)
@@ -64,8 +115,10 @@ let predict (c : string) (obs : string) : string * string * bool =
       let unl = String.length spec >= 4 && String.sub spec 0 4 = "unl:" in
       let want = Printf.sprintf "0 %s 0" (if unl then "0" else reps) in
       (want, verdict (obs = want) ("finish callback must fire exactly once, and only when the schedule has ended; expected " ^ want), true)
-  | "start" :: per :: _t :: _rps :: _a :: k :: _st :: _shoot :: _cancel :: failgun :: _provrun :: ([] | [_]) ->
-      let k = int_of_string k in
+  | "start" :: per :: _t :: _rps :: _a :: kf :: st :: _shoot :: _cancel :: failgun :: _provrun :: ([] | [_]) ->
+      (* tokens of the configured startup profile: from the model, not from the case line *)
+      let k = List.length (flat_spec st) in
+      if k <> int_of_string kf then ("?", "BAD:case-line-K-differs-from-the-model-count-of-the-startup-profile", false) else
       (match split_blank obs with
        | [outcome; started; finished; ids; distinct; notahead; ammo_out; rps_fin; ext; fail; endclass; conserved; late; onprofile; attempts] ->
            let started = int_of_string started and finished = int_of_string finished in
